@@ -214,6 +214,7 @@ class C13(Prop):
                 lines.append("rule p_%s { condition: %s }" % (n, n))
             else:
                 lines.append('rule p_%s { condition: console.log("%s=", %s) }' % (n, n, n))
+        lines.append('rule p_tag { condition: console.log("tag=") }')     # shows which callback gets the messages
         lines.append('rule q { strings: $a = "%s" condition: $a }' % NEEDLE.decode())
         lines.append("rule never { condition: false }")
         if with_pe:
@@ -546,8 +547,7 @@ class C13(Prop):
                 raise Bad("steps missing")
         except (Bad, KeyError, ValueError, IndexError, TypeError, AssertionError, OverflowError):
             return (False, False, 0)
-        symmap = glist([gpair(gstr(s["name"]) + "%string", "%d%%nat" % i) for i, s in enumerate(case["csymbols"])])
-        syms = glist([g_extval(*sym_value(s)) for s in case["csymbols"]])
+        csyms = glist([gpair(gstr(s["name"]) + "%string", g_extval(*sym_value(s))) for s in case["csymbols"]])
         ops = []
         for op in case["ops"]:
             k = op["op"]
@@ -565,8 +565,8 @@ class C13(Prop):
                     ops.append("OLocal %d%%nat (LSetData 2 %d)" % (op["c"], {None: 0, False: 1, True: 2}[op["is_signed"]]))
             else:
                 ops.append("OScan %d%%nat %d" % (op["c"], op["nocc"]))
-        return "C13_hist_case %d %d %s %s %s %s %s %s" % (
-            len(NEEDLE), case["nprobe"], symmap, syms, glist([gN(x) for x in params_vec({})]), glist(ops),
+        return "C13_hist_case %d %d %s %s %s %s %s" % (
+            len(NEEDLE), case["nprobe"], csyms, glist([gN(x) for x in params_vec({})]), glist(ops),
             glist([g_obs(x) for x in first]), glist(steps))
 
     # ---------------------------------------------------------------- hash
